@@ -335,10 +335,17 @@ class NumEval:
     def term_inputs(self, t: Term, d: int) -> set:
         """Inputs a term's VALUE can depend on.  A subscript of a literal dictionary depends
         only on the selected entry, not on everything written in the literal."""
+        if not isinstance(t, tuple) or not t:
+            return set()
+        if not isinstance(t[0], str):           # a tuple of terms (argument list)
+            out = set()
+            for x in t:
+                out |= self.term_inputs(x, d)
+            return out
         r = self.inputs(t)
         if r is not None:
             return set(r.inputs())
-        if isinstance(t, tuple) and t and t[0] == 'sub' and t[1][0] == 'dict' and \
+        if t[0] == 'sub' and isinstance(t[1], tuple) and t[1] and t[1][0] == 'dict' and \
                 t[2][0] == 'const':
             hit = [v for kk, v in t[1][1] if kk == t[2]]
             if len(hit) == 1:
